@@ -94,10 +94,10 @@ class PostponeOnce:
 def gen_catalogue(seed):
     t = core.Tape(seed=core.run_seed(seed, "C16-catalogue", 0))
     cfgs = []
-    kinds = ["default", "fqn", "rrel", "postpone-once", "plain", "plain-single-mm"]
+    kinds = ["default", "fqn", "rrel", "postpone-once", "plain", "plain-single-mm", "plainuri", "fqnuri"]
     nitem = 0
-    for i in range(12):
-        template = "items" if i % 3 != 2 else "mods"
+    for i in range(14):
+        template = "items" if i % 3 != 2 or i >= 12 else "mods"
         cfg = {
             "template": template,
             "memoization": t.chance(1, 2, "memo"),
@@ -118,6 +118,8 @@ def gen_catalogue(seed):
             # every provider kind at least once, then drawn
             cfg["provider"] = kinds[nitem] if nitem < len(kinds) else t.pick(kinds, "provider")
             nitem += 1
+            if cfg["provider"] == "plainuri":
+                cfg["global_repository"] = True  # imports + a repository shared by all loads of the metamodel
             n = t.draw(3, "nclasses")
             names = []
             for _ in range(n):
@@ -168,7 +170,24 @@ def gen_catalogue(seed):
         w.render()
         items_inputs.append({"kind": kind, "text": fe.text, "qualified": qualified})
     mods_inputs = [{"kind": "fixed", "text": s} for s in MODS_INPUTS]
-    return {"cfgs": cfgs, "items": items_inputs, "mods": mods_inputs}
+    # multi-file inputs for the import providers: two libraries define the same name, each main file sees one of
+    # them (or none): what an earlier load imported must not be visible to a later load
+    lib = {
+        "/sim/w3m/lib1.m": "def x def only1 box bx { def y }",
+        "/sim/w3m/lib2.m": "\n\ndef x = 5 def only2 box bx { def y = 2 }",
+        "/sim/w3m/sub/lib3.m": 'import "../lib1.m" def z use uz : x',
+    }
+    multi = [
+        {"kind": "imports-lib1", "path": "/sim/w3m/a.m", "text": 'import "lib1.m" use ua : x , only1 one bx.y'},
+        {"kind": "imports-lib2", "path": "/sim/w3m/b.m", "text": 'import "lib2.m"\nuse ub : x , only2 one bx.y'},
+        {"kind": "no-import-dangling", "path": "/sim/w3m/c.m", "text": "def own use uc : own , x"},
+        {"kind": "no-import-dangling2", "path": "/sim/w3m/d.m", "text": "def own use ud : only2"},
+        {"kind": "imports-lib3", "path": "/sim/w3m/e.m", "text": 'import "sub/lib3.m" use ue : z'},
+        {"kind": "imports-both-order", "path": "/sim/w3m/f.m", "text": 'import "lib2.m" import "lib1.m" use uf : only1 , only2'},
+        {"kind": "syntax-in-import", "path": "/sim/w3m/g.m", "text": 'import "bad.m" use ug : x'},
+    ]
+    lib["/sim/w3m/bad.m"] = "def x %"
+    return {"cfgs": cfgs, "items": items_inputs, "mods": mods_inputs, "multi": multi, "lib": lib}
 
 
 def build_metamodel(cfg):
@@ -199,6 +218,10 @@ def build_metamodel(cfg):
         mm.register_scope_providers({"*.*": create_rrel_scope_provider("^items*")})
     elif prov == "postpone-once":
         mm.register_scope_providers({"*.*": PostponeOnce(sp.FQN())})
+    elif prov == "plainuri":
+        mm.register_scope_providers({"*.*": sp.PlainNameImportURI()})
+    elif prov == "fqnuri":
+        mm.register_scope_providers({"*.*": sp.FQNImportURI()})
     procs = {}
     if cfg["procs"] in ("record", "replace", "boom"):
         procs["Use"] = lambda o: None
@@ -224,10 +247,20 @@ def build_metamodel(cfg):
 
 
 def input_list(cat, cfg):
+    if cfg.get("provider") in ("plainuri", "fqnuri"):
+        return cat["multi"]
     return cat["items"] if cfg["template"] == "items" else cat["mods"]
 
 
-def do_load(mm, text, mode, j):
+def do_load(mm, text, mode, j, inp=None):
+    if inp is not None and "path" in inp:
+        # multi-file input: the main file and the libraries live on the virtual file system
+        for p, t_ in CAT["lib"].items():
+            SIMFS.files[p] = t_
+        SIMFS.files[inp["path"]] = text
+        if mode == "file":
+            return mm.model_from_file(inp["path"])
+        return mm.model_from_str(text, file_name=inp["path"])
     if mode == "file":
         path = f"/sim/w3/in{j}.m"
         SIMFS.files[path] = text
@@ -265,7 +298,7 @@ def _ref_run(ctx):
     cfg = CAT["cfgs"][i]
     inp = input_list(CAT, cfg)[j]
     mm = build_metamodel(cfg)
-    out = outcome_of(lambda: do_load(mm, inp["text"], mode, j))
+    out = outcome_of(lambda: do_load(mm, inp["text"], mode, j, inp))
     ctx.sample = out
 
 
@@ -327,7 +360,7 @@ def run(ctx):
         inputs = input_list(CAT, cfg)
         j = t.draw(len(inputs), "input")
         mode = 1 if t.chance(1, 3, "from-file") else 0
-        got = outcome_of(lambda: do_load(mm, inputs[j]["text"], "file" if mode else "str", j))
+        got = outcome_of(lambda: do_load(mm, inputs[j]["text"], "file" if mode else "str", j, inputs[j]))
         want = REF[(ci, j, mode)]
         oc = "ok" if "ok" in got else ("err:" + got["err"]["type"] if "err" in got else "exc:" + got["exc"]["type"])
         ctx.ev("load", slot, ci, j, mode, oc)
